@@ -213,7 +213,7 @@ package syncer
 //@ func RedisOutput.sendCmdsBatch$sendFuncOnce
 //@   arith int
 //@   properties C07 C09 C02 C01 C17
-//@   replay syncer_offsetWithoutRunId syncer_gcRunningReplay syncer_txnRecordWithoutRunId syncer_clusterCheckpointOrder syncer_inMemoryResumeDb
+//@   replay syncer_offsetWithoutRunId syncer_gcRunningReplay syncer_txnRecordWithoutRunId syncer_clusterCheckpointOrder syncer_inMemoryResumeDb syncer_inMemoryTxnPosition
 //@   ghost var bLen mathint
 //@   ghost var bFirst string
 //@   ghost var bLast string
@@ -226,7 +226,7 @@ package syncer
 //@   requires clean: queueClean(cmdQueue)
 //@   requires disarmed: cpArmed == 0
 //@   requires cp_monotone [C07]: shouldUpdateCP ==> lastOffset >= tCpHigh
-//@   modifies heap, cmdQueue, queuedByteSize, bLen, bFirst, bLast, bCpPuts, bCp, bCpPos, tCpHigh, cpArmed, ridKeyVal
+//@   modifies heap, cmdQueue, queuedByteSize, bLen, bFirst, bLast, bCpPuts, bCp, bCpPos, tCpHigh, cpArmed, ridKeyVal, memKept
 //@   set cpArmed = 1 at call OffsetKey
 //   ridKeyVal  the field name CheckpointInfo.RunIdKey() returned in this flush
 //@   ghost var ridKeyVal string
@@ -236,6 +236,10 @@ package syncer
 //@   assert at call Exec: a_cluster_position_is_not_sent_in_parallel_with_the_commands_it_covers [C02]: ro.cfg.Redis.Type == config.RedisTypeCluster && !shouldInTransaction && bCpPuts == 1 ==> bLen == 1
 //@   assert at call Dispatch: a_cluster_position_is_not_sent_in_parallel_with_the_commands_it_covers [C02]: ro.cfg.Redis.Type == config.RedisTypeCluster && !shouldInTransaction && bCpPuts == 1 ==> bLen == 1
 //@   assert at call keepPositionInMemory: a_position_kept_in_memory_names_the_database_of_the_last_command_taken [C01]: db == lastDb && offset == lastOffset
+//   memKept  the position handed to keepPositionInMemory in this flush
+//@   ghost var memKept mathint
+//@   set memKept = offset at call keepPositionInMemory
+//@   ensures a_position_kept_in_memory_moves_with_every_batch_that_was_sent [C01]: result == nil && old(shouldUpdateCP && !ro.cfg.EnableResumeFromBreakPoint) && lastOffset >= 0 ==> memKept == lastOffset
 //@   assert at call Exec: the_whole_queue_is_in_the_batch [C01]: bLen >= len(cmdQueue) + ite(shouldInTransaction, 2, 0)
 //@   assert at call Dispatch: the_whole_queue_is_in_the_batch [C01]: bLen >= len(cmdQueue) + ite(shouldInTransaction, 2, 0)
 //@   ensures sent: result == nil && !isPipeline ==> len(cmdQueue) == 0
@@ -310,6 +314,7 @@ package syncer
 //@   set unqueued = 0 after store cmdQueue
 //@   assert after store cmdQueue: received_command_is_appended_at_the_end [C01]: unqueued == 1 ==> len(cmdQueue) >= 1 && cmdQueue[len(cmdQueue) - 1].Cmd == rcvCmd && cmdQueue[len(cmdQueue) - 1].Offset == rcvOff && cmdQueue[len(cmdQueue) - 1].Db == rcvDb
 //@   assert after store lastDb: the_database_of_the_last_command_taken_is_remembered [C01]: rcvDb >= 0 ==> lastDb == rcvDb
+//@   assert at call sendFunc: a_transactional_batch_always_moves_the_resume_position [C01]: transactionBatch ==> shouldUpdateCP
 //@   assert at call sendFunc: cp_absorbed [C02 C09]: shouldUpdateCP ==> pending == 0 - 1 || lastOffset < pending || txnStatus == txnStatusCommit
 //@   assert at call sendFunc: txn_whole [C09]: !inTransaction || txnStatus == txnStatusCommit
 //@   assert at call sendFunc: cp_monotone [C07]: shouldUpdateCP ==> lastOffset >= tCpHigh
